@@ -10,12 +10,14 @@ RULE = ("operation sequences over the LASFile curve API (append_curve, insert_cu
         "as / wider than the curve list, empty arrays, names None / short / equal / duplicated, truncate on/off; ~50 concrete operations), "
         "exhaustive up to a length bound, then random longer ones (<= 8), started from a fresh LASFile(), a file read with mnemonic_case=upper "
         "(duplicate curves, mnemonic_transforms on) and one read with mnemonic_case=preserve; pairs of LASFiles edited alternately. After "
-        "every step: real LASFile vs Lean model (result enum, originals, session names, unit/value/descr, arrays as cell tags, las.data, "
+        "the insertion of a curve the group of its name must be numbered :1..:n (insert-session-names); stream `aliasing`: one ndarray shared by "
+        "several curves / two files, then updates of equal shape. After every step: real LASFile vs Lean model (result enum, originals, session names, unit/value/descr, arrays as cell tags, las.data, "
         "las.index, items(), las[k] for 9 probe keys) and vs an independent plain-Python list model (the oracle), six views compared. "
         "non-trivial = the final state holds >= 2 curves or some step raised")
 TRUSTED = ["numpy array slicing / vstack / asarray (arrays are compared as lists of cell tags)",
            "Python list semantics for insert/pop index normalisation (modelled as pyInsertPos / pyIndex, compared on every run)"]
-ASSUMPTIONS = ["no aliasing: every CurveItem / array object is handed to exactly one LASFile once",
+ASSUMPTIONS = ["the Lean model is functional (arrays are values); aliasing is exercised by the oracle only: stream `aliasing` hands the SAME ndarray "
+               "to several curves and to both files of a pair and then updates one of them",
                "curve arrays are 1-D ndarrays, set_data receives a 2-D ndarray (not a DataFrame), names is None or a list of str",
                "C14_refines*: the state is well formed (one array per curve) — an invariant proved for every operation (C14_wf_step)",
                "C14_getitem_mnemonic_exact: mnemonic_transforms off, or session names distinct under the section's comparison "
@@ -38,6 +40,7 @@ def alphabet():
     """templates; arrays / values are attached by with_values"""
     ops = []
     ops += [["append_curve", n] for n in ("A", "a", "", "B", "A:1")]
+    ops += [["append_shared", "S"]]     # the SAME ndarray object handed to every such call of a history (and to both files of a pair)
     ops += [["insert_curve", i, n] for i, n in ((0, "A"), (1, ""), (-1, "A"), (5, "B"), (-7, "a"))]
     ops += [["append_item", "B", True], ["append_item", "H", False]]
     ops += [["insert_item", 0, "A", True], ["insert_item", -1, "", True], ["insert_item", 1, "H", False]]
@@ -48,6 +51,7 @@ def alphabet():
     # flags: a = array, u = unit, d = descr, v = value
     ops += [["update_ix", 0, "a"], ["update_ix", -1, "udv"], ["update_ix", 4, "a"]]
     ops += [["update_mnem", "A:2", "au"], ["update_mnem", "B", "a"], ["update_mnem", "zz", "a"]]
+    ops += ALIAS_OPS[1:]
     ops += [["setitem_curve", "A", "A"], ["setitem_curve", "B", "B"], ["setitem_curve", "A", "B"],
             ["setitem_curve", "UNKNOWN", ""]]
     ops += [["setitem_data", k] for k in ("A", "B", "A:1", "")]
@@ -59,7 +63,11 @@ def alphabet():
     return ops
 
 
-GROW = 12   # the first GROW templates only add curves (used to bias long random sequences)
+# sub-alphabet of the aliasing stream: several curves (and both files of a pair) hold the same ndarray, then one of them is updated
+ALIAS_OPS = [["append_shared", "S"], ["update_ix", 1, "a"], ["update_mnem", "S:1", "a"], ["update_mnem", "S", "a"], ["setitem_data", "S:2"],
+             ["setitem_data", "S"]]
+
+GROW = 13   # the first GROW templates only add curves (used to bias long random sequences)
 
 
 def arr(tag, n):
@@ -74,6 +82,8 @@ def with_values(seq):
         n = 3 if c % 4 == 0 else 2     # mostly equal lengths, sometimes not (las.data -> ValueError)
         if k == "append_curve":
             out.append([k, op[1], "u%d" % c, "v%d" % c, "d%d" % c, arr(c, n)])
+        elif k == "append_shared":
+            out.append(["append_curve", op[1], "u%d" % c, "v%d" % c, "d%d" % c, list(SHARED_CELLS)])
         elif k == "insert_curve":
             out.append([k, op[1], op[2], "u%d" % c, "v%d" % c, "d%d" % c, arr(c, n)])
         elif k == "append_item":
@@ -93,6 +103,16 @@ def with_values(seq):
             out.append([k, rows, op[3], op[4], [op[1], op[2]]])   # 5th element: the shape, for the real side only
         else:
             out.append(list(op))
+    return out
+
+
+def with_values_alias(seq):
+    """like with_values, but every array has the length of the shared one (an update of equal shape is where aliasing would show)"""
+    out = with_values(seq)
+    for o in out:
+        for i, x in enumerate(o):
+            if isinstance(x, list) and x and all(isinstance(y, str) for y in x) and len(x) == 3 and x != SHARED_CELLS and o[0] != "set_data":
+                o[i] = x[:2]
     return out
 
 
@@ -116,8 +136,18 @@ def cells(a):
     return [tag(x) for x in a.tolist()]
 
 
+SHARED_CELLS = ["7", "8"]
+_SHARED = {}      # per history: the one ndarray behind every curve created with SHARED_CELLS (cleared by run_sequence / run_pair)
+
+
 def nparr(c):
     import numpy as np
+    if list(c) == SHARED_CELLS:
+        # aliasing on purpose: lasio stores the caller's array; no operation of the curve API may change it in place, so the
+        # other curves / the other LASFile holding the same object keep their values (the list model holds copies)
+        if "a" not in _SHARED:
+            _SHARED["a"] = np.array([float(x) for x in c], dtype=float)
+        return _SHARED["a"]
     return np.array([float(x) for x in c], dtype=float)
 
 
@@ -339,7 +369,39 @@ def oracle_views(run, las, lm, case):
 
 
 # ------------------------------------------------------------------------------------------------ one history
+def expected_session_names(names, tr, only=None):
+    """session names after the duplicate suffixes of the groups in `only` (None: every group) have been (re)assigned: a unique
+    name is bare, k items sharing a name are name:1..name:k in order (C13's numbering, from the plain list of original names)"""
+    eqn = (lambda a, b: a.upper() == b.upper()) if tr else (lambda a, b: a == b)
+    out = {}
+    for i, nm in enumerate(names):
+        if only is not None and not eqn(useful(nm), useful(only)):
+            continue
+        grp = [j for j, x in enumerate(names) if eqn(useful(x), useful(nm))]
+        out[i] = useful(nm) if len(grp) == 1 else useful(nm) + ":%d" % (grp.index(i) + 1)
+    return out
+
+
+def inserted_name(op, want, keys_before):
+    """the original name of the curve an operation inserted (None: it inserted nothing)"""
+    k = op[0]
+    if want != "ok":
+        return None
+    if k == "append_curve":
+        return op[1]
+    if k == "insert_curve":
+        return op[2]
+    if k == "append_item":
+        return op[1][0]
+    if k in ("insert_item", "replace_item", "setitem_curve"):
+        return op[2][0]
+    if k == "setitem_data" and op[1] not in keys_before:
+        return op[1]
+    return None
+
+
 def run_sequence(run, seq, start, kind):
+    _SHARED.clear()
     las = new_las(start)
     init = dump(las)
     lm = ListModel(init)
@@ -355,6 +417,15 @@ def run_sequence(run, seq, start, kind):
         if r != want:
             run.fail("result", c2, dict(expected=want, observed=r))
         oracle_views(run, las, lm, c2)
+        ins = inserted_name(op, want, keys)
+        if ins is not None and r == "ok":
+            # an insertion re-assigns the suffixes of the inserted name's group: that group is numbered :1..:n in order, a unique
+            # name stays bare (so that mnemonic indexing reaches the new curve under the documented key)
+            exp = expected_session_names([c["name"] for c in lm.l], tr, only=ins)
+            got = list(las.keys())
+            bad = [i for i, kx in exp.items() if i >= len(got) or got[i] != kx]
+            if bad:
+                run.fail("insert-session-names", c2, dict(index=bad[0], expected=exp[bad[0]], observed=got[bad[0]] if bad[0] < len(got) else None))
         if op[0] == "set_data" and r == "ok" and len(op[1]) > 0 and len(op[1][0]) > 0:      # (an empty array renames nothing)
             # set_data names the curves and re-assigns every duplicate suffix: afterwards a curve whose name is unique must be
             # reachable under exactly that name, duplicates under name:1..name:n in order (mnemonic indexing agrees with the list model)
@@ -395,6 +466,7 @@ def compare(run, case, m, steps):
 
 def run_pair(run, seq, which, starts, kind):
     """two LASFiles edited alternately: the untouched one must not change (oracle), both follow the product model"""
+    _SHARED.clear()
     a, b = new_las(starts[0]), new_las(starts[1])
     case = {"pair": starts, "ops": seq, "which": which}
     ia, ib = dump(a), dump(b)
@@ -425,6 +497,14 @@ def sequences(run):
         yield with_values(seq), "random"
 
 
+def alias_sequence(rng):
+    n = rng.randint(3, 6)
+    seq = [["append_shared", "S"]] * rng.choice([1, 2, 2, 3])
+    extra = ALIAS_OPS + [["update_ix", 0, "a"], ["delete_ix", 0], ["append_curve", "B"]]
+    seq = seq + [rng.choice(extra) for _ in range(max(1, n - len(seq)))]
+    return seq
+
+
 def run(run):
     batch = []
 
@@ -451,10 +531,20 @@ def run(run):
         if len(batch) >= 128:
             flush()
     flush()
+    for _ in range(run.budget(300, 6000)):
+        case, req, steps = run_sequence(run, with_values_alias(alias_sequence(run.rng)), run.rng.choice(STARTS), "aliasing")
+        batch.append((case, req, steps, False))
+        if len(batch) >= 128:
+            flush()
+    flush()
     ops = alphabet()
-    for _ in range(run.budget(600, 12000)):
-        n = run.rng.randint(2, 8)
-        seq = with_values([run.rng.choice(ops[:GROW]) if run.rng.random() < 0.4 else run.rng.choice(ops) for _ in range(n)])
+    for it in range(run.budget(900, 15000)):
+        if it % 3 == 2:
+            seq = with_values_alias(alias_sequence(run.rng))
+            n = len(seq)
+        else:
+            n = run.rng.randint(2, 8)
+            seq = with_values([run.rng.choice(ops[:GROW]) if run.rng.random() < 0.4 else run.rng.choice(ops) for _ in range(n)])
         which = [run.rng.random() < 0.5 for _ in range(n)]
         starts = [run.rng.choice(STARTS), run.rng.choice(STARTS)]
         case, req, steps = run_pair(run, seq, which, starts, "pair")
